@@ -39,11 +39,22 @@
  *                   against the region of that configuration.
  *
  * Zero-length parts inside the data (offset 0..N, length 0) are part of
- * scenarios A (fetch_part) and B (store_part): a successful zero-length store
- * is a successful partial store, so the instance must validate afterwards; a
- * library that refuses them is accepted (class part-zero-length either way).
- * A zero-length medium access touches no octet and is inside the region
- * wherever its address is.
+ * scenarios A (fetch_part) and B (store_part).  The statement does not say
+ * whether storing zero octets is a partial store, so every one of these answers
+ * is accepted (one class part-zero-length): (a) the library refuses it; (b) it
+ * reports success and changed the medium (it took it for a store: then it is
+ * held to the oracle of a successful partial store); (c) it reports success and
+ * the medium image is exactly what it was before the call (it took it for
+ * "nothing to do": nothing further is demanded, in particular not that an
+ * instance that did not validate before validates now).  A zero-length medium
+ * access touches no octet and is inside the region wherever its address is.
+ *
+ * The part accesses of scenario C with offsets/lengths that need more than 32
+ * bits, and the values near the top of the range used for the arithmetic-
+ * overflow pairs, are taken from the prototypes of persistent_store_part /
+ * persistent_fetch_part as the harness is compiled (part_limits): an argument
+ * that the parameter type cannot represent is not an input of the API and is
+ * not generated.
  *
  * The medium is exactly the instance's region [place, place+cs+N) inside an
  * exact-size heap block.  The callbacks log every (address,length); an access
@@ -68,6 +79,7 @@
  */
 #include "mc.h"
 
+#include <limits.h>
 #include <setjmp.h>
 
 #include <ufw/persistent-storage.h>
@@ -790,17 +802,25 @@ scenario_part(const struct cfg *c)
                         PersistentAccess rc;
                         ok = run_op(&in, OP_STORE_PART, src, off, len, 0, &rc);
                         free(src);
+                        bool noop0 = false;
                         if (ok && rc != PERSISTENT_ACCESS_SUCCESS) {
                             store_refused(&in, c, before, "store_part", rc);
                             ok = false;
+                        } else if (ok && len == 0 && memcmp(before, M.img, M.size) == 0) {
+                            /* success, and the medium image is what it was: the library
+                             * took "store zero octets" for "nothing to do".  Admitted
+                             * (the statement does not call that a partial store);
+                             * nothing further is demanded. */
+                            mc_log("  zero-length store_part: success, medium unchanged (%ld writes)", M.writes);
+                            noop0 = true;
                         }
                         free(before);
-                        if (ok && check_stored(&in, c, expect, NULL))
+                        if (ok && !noop0 && check_stored(&in, c, expect, NULL))
                             outcome = part_outcome(c);
                     }
                     if (len == 0 && !failed_here && !hung_here) {
-                        /* accepted (and then held to the oracle above) or refused:
-                         * both admitted, one class */
+                        /* refused, accepted as a store (and then held to the oracle
+                         * above) or accepted as a no-op: all admitted, one class */
                         const bool refused = refused_here;
                         refused_here = false;
                         end_case(&in, !refused, "part-zero-length");
@@ -811,54 +831,104 @@ scenario_part(const struct cfg *c)
 }
 
 struct pair {
-    size_t off, len;
+    unsigned long long off, len;
     bool overflow;
+    unsigned k; /* overflow pairs: off = (largest offset the API takes) - k */
 };
 
+/* Largest value the (offset, length) parameters of a part access can take, from
+ * the prototype the harness is compiled against.  The documented API takes
+ * size_t for both; a library whose prototype is narrower (say uint32_t) simply
+ * has no arguments at or above 2^32, and "the largest offset" is that type's
+ * maximum.  A parameter type not listed here (a signed one, say) is credited
+ * with 15 bits only, which every integer type wider than char holds. */
+struct part_limits {
+    unsigned long long offmax, lenmax;
+};
+#define PART_TYPES(X)                                                                             \
+    X(unsigned short, USHRT_MAX) X(unsigned int, UINT_MAX) X(unsigned long, ULONG_MAX)             \
+    X(unsigned long long, ULLONG_MAX)
+#define STORE_SIG(TO, TL) PersistentAccess (*)(PersistentStorage *, const void *, TO, TL)
+#define FETCH_SIG(TO, TL) PersistentAccess (*)(void *, PersistentStorage *, TO, TL)
+#define OFF_ROW(SIG, TO, MO)                                                                      \
+    SIG(TO, unsigned short): MO, SIG(TO, unsigned int): MO, SIG(TO, unsigned long): MO,            \
+    SIG(TO, unsigned long long): MO,
+#define LEN_ROW(SIG, TL, ML)                                                                      \
+    SIG(unsigned short, TL): ML, SIG(unsigned int, TL): ML, SIG(unsigned long, TL): ML,            \
+    SIG(unsigned long long, TL): ML,
+#define STORE_OFF(T, MAXV) OFF_ROW(STORE_SIG, T, MAXV)
+#define STORE_LEN(T, MAXV) LEN_ROW(STORE_SIG, T, MAXV)
+#define FETCH_OFF(T, MAXV) OFF_ROW(FETCH_SIG, T, MAXV)
+#define FETCH_LEN(T, MAXV) LEN_ROW(FETCH_SIG, T, MAXV)
+#define PART_UNKNOWN 0x7fffull
+
+static struct part_limits
+part_limits(int which /* 0 store_part, 1 fetch_part */)
+{
+    struct part_limits l;
+    if (which == 0) {
+        l.offmax = _Generic(&persistent_store_part, PART_TYPES(STORE_OFF) default: PART_UNKNOWN);
+        l.lenmax = _Generic(&persistent_store_part, PART_TYPES(STORE_LEN) default: PART_UNKNOWN);
+    } else {
+        l.offmax = _Generic(&persistent_fetch_part, PART_TYPES(FETCH_OFF) default: PART_UNKNOWN);
+        l.lenmax = _Generic(&persistent_fetch_part, PART_TYPES(FETCH_LEN) default: PART_UNKNOWN);
+    }
+    return l;
+}
+
 static int
-make_refused_pairs(size_t N, struct pair *p)
+make_refused_pairs(size_t N, struct pair *p, struct part_limits lim)
 {
     int n = 0;
     for (size_t off = 0; off <= N; ++off)
         for (size_t over = 1; over <= 2; ++over)
-            p[n++] = (struct pair){ off, N + over - off, false };
-    for (size_t k = 0; k < 3; ++k)
-        for (size_t j = 0; j < 3; ++j)
-            p[n++] = (struct pair){ SIZE_MAX - k, k + 1 + j, true };
-#if SIZE_MAX > 0xffffffffu
+            p[n++] = (struct pair){ off, N + over - off, false, 0 };
+    /* offset + length overflows the offset's type */
+    for (unsigned k = 0; k < 3; ++k)
+        for (unsigned j = 0; j < 3; ++j)
+            p[n++] = (struct pair){ lim.offmax - k, k + 1 + j, true, k };
     /* offsets and lengths at and above 2^32 (and 2^31) whose low 32 bits describe
      * a part inside the data: refused, unless the arithmetic is done in a
-     * narrower type than size_t */
+     * narrower type than the parameters have.  Only those the prototype can be
+     * handed. */
     {
-        const size_t W = (size_t)1 << 32, H = (size_t)1 << 31;
-        p[n++] = (struct pair){ W, 1, false };
-        p[n++] = (struct pair){ W + (N - 1), 1, false };
-        p[n++] = (struct pair){ 0, W + 1, false };
-        p[n++] = (struct pair){ 0, W + N, false };
-        p[n++] = (struct pair){ W, W + 1, false };
-        p[n++] = (struct pair){ H, H + 1, false };
-        p[n++] = (struct pair){ 2 * W, 1, false };
-        p[n++] = (struct pair){ W * 65536, 1, false };
+        const unsigned long long W = 1ull << 32, H = 1ull << 31;
+        const struct pair wide[8] = {
+            { W, 1, false, 0 },     { W + (N - 1), 1, false, 0 }, { 0, W + 1, false, 0 },
+            { 0, W + N, false, 0 }, { W, W + 1, false, 0 },       { H, H + 1, false, 0 },
+            { 2 * W, 1, false, 0 }, { W * 65536, 1, false, 0 },
+        };
+        for (int i = 0; i < 8; ++i)
+            if (wide[i].off <= lim.offmax && wide[i].len <= lim.lenmax)
+                p[n++] = wide[i];
     }
-#endif
     return n;
+}
+
+static const char *
+limit_name(unsigned long long v)
+{
+    return v == ULLONG_MAX ? "2^64-1" : v == 0xffffffffull ? "2^32-1" : v == 0xffffull ? "2^16-1"
+           : v == PART_UNKNOWN ? "2^15-1" : "max";
 }
 
 static void
 scenario_refuse(const struct cfg *c)
 {
     struct pair pairs[2 * (NMAX + 1) + 9 + 8];
-    const int np = make_refused_pairs(c->N, pairs);
     unsigned char image[NMAX];
-    for (int which = 0; which < 2; ++which)
+    for (int which = 0; which < 2; ++which) {
+        const struct part_limits lim = part_limits(which);
+        const int np = make_refused_pairs(c->N, pairs, lim);
         for (int pi = 0; pi < np; ++pi) {
             const struct pair *p = &pairs[pi];
             if (p->overflow) {
-                if (!mc_case(CFGFMT " C:reset(00),store(image2),%s(off=SIZE_MAX-%zu,len=%zu)",
-                             CFGARG(c), which ? "fetch_part" : "store_part", SIZE_MAX - p->off, p->len))
+                if (!mc_case(CFGFMT " C:reset(00),store(image2),%s(off=%s-%u,len=%llu)",
+                             CFGARG(c), which ? "fetch_part" : "store_part",
+                             lim.offmax == SIZE_MAX ? "SIZE_MAX" : limit_name(lim.offmax), p->k, p->len))
                     continue;
             } else {
-                if (!mc_case(CFGFMT " C:reset(00),store(image2),%s(off=%zu,len=%zu)", CFGARG(c),
+                if (!mc_case(CFGFMT " C:reset(00),store(image2),%s(off=%llu,len=%llu)", CFGARG(c),
                              which ? "fetch_part" : "store_part", p->off, p->len))
                     continue;
             }
@@ -869,11 +939,12 @@ scenario_refuse(const struct cfg *c)
                 unsigned char *snap = mc_exact_copy(M.img, M.size);
                 /* the caller's buffer: exact size, except for the absurd lengths
                  * (a correct library refuses those before touching it) */
-                const size_t blen = p->len > 4096 ? 64 : p->len;
+                const size_t blen = p->len > 4096 ? 64 : (size_t)p->len;
                 unsigned char *buf = mc_exact(blen);
                 memset(buf, 0x77, blen);
                 PersistentAccess rc;
-                if (run_op(&in, which ? OP_FETCH_PART : OP_STORE_PART, buf, p->off, p->len, 0, &rc)) {
+                if (run_op(&in, which ? OP_FETCH_PART : OP_STORE_PART, buf, (size_t)p->off, (size_t)p->len, 0,
+                           &rc)) {
                     if (rc == PERSISTENT_ACCESS_SUCCESS)
                         FAIL("C10/part-beyond-size-refused",
                              "%s with offset+len beyond the data size %zu returned success",
@@ -890,6 +961,7 @@ scenario_refuse(const struct cfg *c)
             }
             end_case(&in, true, p->overflow ? "refused-overflow" : "refused-range");
         }
+    }
 }
 
 static void
@@ -1292,18 +1364,31 @@ main(int argc, char **argv)
                 }
         }
     c.h = NULL;
-    char bound[1200];
+    /* what the prototypes let scenario C hand in */
+    char cpairs[200];
+    {
+        const struct part_limits ls = part_limits(0), lf = part_limits(1);
+        const bool wide = ls.offmax > 0xffffffffull && ls.lenmax > 0xffffffffull && lf.offmax > 0xffffffffull
+                          && lf.lenmax > 0xffffffffull;
+        snprintf(cpairs, sizeof cpairs,
+                 "C: offset+len = N+1, N+2, 9 overflow pairs at the top of the offset type (store_part %s, "
+                 "fetch_part %s), pairs at and above 2^31/2^32 %s",
+                 limit_name(ls.offmax), limit_name(lf.offmax),
+                 wide ? "(8: the prototypes take 64-bit offsets and lengths)"
+                      : "only as far as the prototypes' parameter types represent them");
+    }
+    char bound[1500];
     snprintf(bound, sizeof bound,
              "data sizes 1..%zu%s x placements {0,1,7,100,straddling 2^16,straddling 2^31,ending at 2^32} x "
              "{default sum16, CRC-16/ARC, sum32} x both configuration orders x auxiliary buffer {none, 0..N+1} x "
-             "scenarios A-D complete (parts include length 0 at offsets 0..N); E: sizes 1..%zu x placements %s x "
+             "scenarios A-D complete (parts include length 0 at offsets 0..N; %s); E: sizes 1..%zu x placements %s x "
              "buffers {none,0..N+1} x {CRC-16/ARC by content, 16-bit and 32-bit sum by initial value} x 2 images x 8 "
              "special checksum values, default sum with 257/258 octets x 9 buffers x 3 placements; L: sizes {255,256,257,"
              "65535,65536,65537} x placements {0, ending at 2^32} x 3 checksums x buffers {none,7,255,256,65536,N+1} x 2 "
              "compact sequences (parts at the last octet and over the second half); H: sizes 1..%zu x "
              "placements %s x every call sequence of length <= %d over {init,place(A),place(B),sum16,sum32} after "
              "the first init (%d histories) x object prefill {00,a5} x buffers %s x 4 compact sequences",
-             nmax, mc_thorough() ? " and 32" : "", emax, mc_thorough() ? "(all 7)" : "{0,100,ending at 2^32}",
+             nmax, mc_thorough() ? " and 32" : "", cpairs, emax, mc_thorough() ? "(all 7)" : "{0,100,ending at 2^32}",
              hmax, mc_thorough() ? "(all 7)" : "{0,100,ending at 2^32}", hlen, NHISTS,
              mc_thorough() ? "{none,1,3,N+1}" : "{none,3,N+1}");
     mc_finish(true, bound);
